@@ -3,7 +3,6 @@ META = {
     "outside": [],
 }
 
-B = 64
 FS = ["--max-field-sensitivity-array-size", "128", "--object-bits", "10"]
 
 def tagbytes(cfg):
@@ -16,6 +15,7 @@ def tagbytes(cfg):
 
 def uw(cfg, nmain=6):
     """loop bounds derived from the geometry of the query"""
+    B = cfg.get("B", 64)
     nj, nfs = cfg.get("NJ", 6), cfg.get("NFS", 4)
     walk = cfg.get("REF_MAXWALK", 2 * (nj - 1))
     tail = 4 if cfg.get("FEAT_CSUM", 0) >= 2 else 0
@@ -50,6 +50,12 @@ def rv_uw(maxr, hs):
             "jbd2_journal_clear_revoke.0:%d" % (maxr + 1), "jbd2_journal_clear_revoke.1:%d" % (hs + 1),
             "jbd2_journal_destroy_revoke_table.1:%d" % (hs + 1)]
 
+def rm_uw(maxr):
+    return ["jbd2_journal_set_revoke.0:%d" % (maxr + 2), "jbd2_journal_set_revoke.1:%d" % (maxr + 2),
+            "jbd2_journal_test_revoke.0:%d" % (maxr + 2)]
+
+RQ = ["ref_revoked_in.0:3", "jbd2_journal_test_revoke.0:3"]
+
 def cfgs(base_list):
     out = []
     for c in base_list:
@@ -58,31 +64,62 @@ def cfgs(base_list):
         out.append(c)
     return out
 
+Q = {"FIRST": 1}
+T = {"_tier": "thorough"}
+
 HARNESSES = [
     dict(name="scan", src="scan.c",
          funcs=["do_one_pass", "count_tags", "jread"],
-         configs=cfgs([{"FEAT_64BIT": 0, "REF_MAXWALK": 4}, {"FEAT_64BIT": 1, "REF_MAXWALK": 6}]),
-         unwind=3, cbmc_flags=FS,
-         backends=["default", "kissat"],
-         bound="journal of 6 blocks of 64 bytes, every byte symbolic; s_first, s_start, s_sequence symbolic; log walk <= 10 header blocks"),
+         configs=cfgs([dict(Q, FEAT_64BIT=0, REF_MAXWALK=4),
+                       dict(Q, FEAT_64BIT=1, REF_MAXWALK=4),
+                       dict(Q, FEAT_64BIT=0, REF_MAXWALK=6, **T),
+                       dict(FEAT_64BIT=0, REF_MAXWALK=4, **T),          # s_first symbolic
+                       dict(Q, FEAT_64BIT=0, NJ=8, REF_MAXWALK=5, **T)]),
+         unwind=3, cbmc_flags=FS, backends=["default", "kissat"], cap_quick=200,
+         bound="journal of 6 (thorough: 8) blocks of 64 bytes, every byte symbolic (up to 6 tags per descriptor); s_start, s_sequence "
+               "symbolic, s_first 1 (thorough: symbolic); log walk <= 4 (thorough: 6) header blocks; tag size 8 and 12 (64bit)"),
     dict(name="revoke_table", src="revoke_table.c",
          funcs=["jbd2_journal_set_revoke", "jbd2_journal_test_revoke", "find_revoke_record", "insert_revoke_hash",
                 "jbd2_journal_clear_revoke", "jbd2_journal_init_revoke", "jbd2_journal_destroy_revoke"],
-         configs=[{"NSET": 3, "HASHSZ": 2, "_unwindset": rt_uw(3, 2)}],
-         unwind=3, cbmc_flags=FS,
-         backends=["default", "kissat"],
-         bound="3 set_revoke calls with arbitrary block/sequence, 2 hash buckets"),
+         configs=[{"NSET": 3, "HASHSZ": 2, "_unwindset": rt_uw(3, 2)},
+                  {"NSET": 4, "HASHSZ": 4, "_unwindset": rt_uw(4, 4), "_tier": "thorough"}],
+         unwind=3, cbmc_flags=FS, backends=["default", "kissat"],
+         bound="3 (thorough: 4) set_revoke calls with arbitrary 64-bit block numbers and sequence numbers, 2 (4) hash buckets, arbitrary hash function"),
+    dict(name="hash_range", src="hash_range.c", funcs=["hash"],
+         unwind=3, cbmc_flags=FS, backends=["default", "z3"],
+         bound="every 64-bit block number, table sizes 2^1..2^20"),
     dict(name="revoke_pass", src="revoke_pass.c",
          funcs=["do_one_pass", "scan_revoke_records", "count_tags", "jread"],
-         configs=cfgs([{"FEAT_64BIT": 0, "FIRST": 1, "REF_MAXWALK": 4}]),
-         unwind=3, cbmc_flags=FS,
-         backends=["default", "kissat"],
-         bound=""),
+         configs=cfgs([dict(Q, FEAT_64BIT=0, REF_MAXWALK=4),
+                       dict(Q, FEAT_64BIT=1, REF_MAXWALK=4, **T),
+                       dict(Q, FEAT_64BIT=0, REF_MAXWALK=5, REF_MAXREV=3, **T)]),
+         unwind=3, cbmc_flags=FS, backends=["default", "kissat"], cap_quick=200,
+         bound="journal of 6 blocks of 64 bytes, every byte symbolic; log walk <= 4 header blocks; <= 2 revoke blocks in committed "
+               "transactions with <= 2 (thorough: 3) records each; 4- and 8-byte records"),
     dict(name="replay_pass", src="replay_pass.c",
          funcs=["do_one_pass", "read_tag_block", "jread"],
-         configs=cfgs([{"FEAT_64BIT": 0, "FIRST": 1, "REF_MAXWALK": 4, "_unwindset": ["ref_revoked_in.0:3", "jbd2_journal_test_revoke.0:3"]}]),
-         unwind=3, cbmc_flags=FS,
-         backends=["default", "kissat"],
-         bound=""),
+         configs=cfgs([dict(Q, FEAT_64BIT=0, START=1, B=40, REF_MAXWALK=3, _unwindset=RQ),
+                       dict(Q, FEAT_64BIT=0, START=4, B=40, REF_MAXWALK=3, _unwindset=RQ, **T),
+                       dict(Q, FEAT_64BIT=1, START=1, B=40, REF_MAXWALK=3, _unwindset=RQ, **T),
+                       dict(Q, FEAT_64BIT=0, B=40, REF_MAXWALK=3, _unwindset=RQ, **T),
+                       dict(Q, FEAT_64BIT=0, START=1, B=64, REF_MAXWALK=3, _unwindset=RQ, **T)]),
+         unwind=3, cbmc_flags=FS, backends=["kissat", "default"], cap_quick=200,
+         bound="journal of 6 blocks of 40 bytes (<= 3 tags per descriptor; thorough: 64 bytes, 6 tags), filesystem of 4 blocks, every byte "
+               "symbolic; log walk <= 3 header blocks (two transactions); revoke set of 2 arbitrary (block, transaction) pairs; "
+               "s_start 1 (thorough: 4 = data blocks wrap, and symbolic)"),
+    dict(name="recover", src="recover.c",
+         funcs=["jbd2_journal_recover", "do_one_pass", "scan_revoke_records", "count_tags", "read_tag_block", "jread"],
+         configs=cfgs([dict(Q, FEAT_64BIT=0, START=1, B=40, NFS=3, REF_MAXWALK=3, REF_MAXREV=1, REF_MAXRB=1, _unwindset=rm_uw(1)),
+                       dict(Q, FEAT_64BIT=0, START=1, B=40, NFS=3, REF_MAXWALK=3, REF_MAXREV=1, REF_MAXRB=1, DEBUGFS=None, _unwindset=rm_uw(1)),
+                       dict(Q, FEAT_64BIT=0, START=3, B=40, NFS=3, REF_MAXWALK=4, REF_MAXREV=2, REF_MAXRB=1, _unwindset=rm_uw(2), **T),
+                       dict(Q, FEAT_64BIT=1, START=1, B=40, NFS=3, REF_MAXWALK=3, REF_MAXREV=1, REF_MAXRB=1, _unwindset=rm_uw(1), **T)]),
+         unwind=3, cbmc_flags=FS, backends=["kissat", "default"], cap_quick=300,
+         bound="journal of 6 blocks of 40 bytes, filesystem of 3 blocks, every byte symbolic; log walk <= 3 header blocks; <= 1 revoke "
+               "block with 1 record; s_start 1; e2fsck and DEBUGFS flavours"),
+    dict(name="order", src="order.c",
+         funcs=["jbd2_journal_recover", "do_one_pass", "scan_revoke_records", "count_tags", "read_tag_block", "jread"],
+         configs=cfgs([dict(Q, FEAT_64BIT=0, START=1, B=40, NFS=3, REF_MAXWALK=3, REF_MAXREV=1, REF_MAXRB=1, _unwindset=rm_uw(1))]),
+         unwind=3, cbmc_flags=FS, backends=["kissat", "default"], cap_quick=300,
+         bound="as recover; filesystem device split into volatile and durable stores"),
 ]
 MANIFEST = {"text": "", "note": ""}
